@@ -7,48 +7,60 @@ from ..oracles import textview as TV, cells as OC
 
 PROP_ID = "C02"
 LEVEL = "exploration"
-RULE = "Hypothesis: unique-character texts x span sets x width x justify x overflow x no_wrap x tab_size; every output character identifies its input offset"
+RULE = "Hypothesis: unique-character texts x span sets x width x justify x overflow x no_wrap x tab_size, fresh or after a history of wraps and edits of the same Text; every output character identifies its input offset"
 ASSUMPTIONS = [
     "every non-whitespace character of a case is distinct, so an output character identifies its input offset (wrapping depends only on widths and whitespace classes)",
     "whitespace = str.isspace(); exotic line separators (\\x1c-\\x1e, \\x85, U+2028/9) and the characters Text strips are not in the alphabet - DESIGN 7.1/7.2",
     "padding added by justification and the ellipsis character are exempt from the style clause; interior whitespace is not compared",
     "tabs are expanded per line to the next multiple of tab_size (str.expandtabs semantics)",
+    "rewrap: the text that is wrapped is the one the Text object holds at that moment (its .plain is read just before the wrap); the editing methods themselves are C05's subject - here they "
+    "are history, and the only thing assumed about them is that a character they keep keeps its style and a character they add has the style it was added with",
 ]
 
 PAL = GS.PALETTE
 
 
+def _token(draw, out, pools, idx):
+    k = draw(st.integers(0, 11))
+    if k <= 5:
+        ln = draw(st.integers(1, 9))
+        pat = draw(st.lists(st.sampled_from("nnnnnwwz"), min_size=ln, max_size=ln))
+        for p in pat:
+            if idx[p] >= len(pools[p]):
+                p = "n"
+            out.append(pools[p][idx[p]])
+            idx[p] += 1
+    elif k <= 7:
+        out.append(" " * draw(st.integers(1, 4)))
+    elif k == 8:
+        # a run of white space that mixes ordinary spaces with the two-cell ideographic space (cells != characters inside the run)
+        out.append("".join(draw(st.lists(st.sampled_from("  \u3000"), min_size=1, max_size=4))))
+    elif k == 9:
+        out.append("\n")
+    elif k == 10:
+        out.append("\t")
+    else:
+        out.append(draw(st.sampled_from(["\u3000", "\n\n", " \n", "\n "])))
+
+
+POOLS = {"n": list(GC.UNIQ_NARROW), "w": list(GC.UNIQ_WIDE), "z": list(GC.UNIQ_ZERO)}
+
+
 @st.composite
-def unique_text(draw, max_tokens=12):
+def unique_text(draw, max_tokens=12, idx=None):
+    """idx: positions in the three pools of unique characters, shared by the successive pieces of one case so that the pieces never repeat a character."""
     n = draw(st.integers(0, max_tokens))
-    pools = {"n": list(GC.UNIQ_NARROW), "w": list(GC.UNIQ_WIDE), "z": list(GC.UNIQ_ZERO)}
-    idx = {"n": 0, "w": 0, "z": 0}
+    if idx is None:
+        idx = {"n": 0, "w": 0, "z": 0}
     out = []
     for _ in range(n):
-        k = draw(st.integers(0, 11))
-        if k <= 5:
-            ln = draw(st.integers(1, 9))
-            pat = draw(st.lists(st.sampled_from("nnnnnwwz"), min_size=ln, max_size=ln))
-            for p in pat:
-                out.append(pools[p][idx[p]])
-                idx[p] += 1
-        elif k <= 8:
-            out.append(" " * draw(st.integers(1, 4)))
-        elif k == 9:
-            out.append("\n")
-        elif k == 10:
-            out.append("\t")
-        else:
-            out.append(draw(st.sampled_from(["\u3000", "\n\n", " \n", "\n "])))
+        _token(draw, out, POOLS, idx)
     return "".join(out)
 
 
-@st.composite
-def case(draw):
-    text = draw(unique_text())
-    n = len(text)
+def draw_spans(draw, n, most=8):
     spans = []
-    for _ in range(draw(st.integers(0, 8))):
+    for _ in range(draw(st.integers(0, most))):
         kind = draw(st.integers(0, 5))
         if kind == 0 and spans:
             a, b, s = spans[draw(st.integers(0, len(spans) - 1))]
@@ -61,6 +73,13 @@ def case(draw):
             a = draw(st.integers(0, n))
             b = draw(st.integers(a, n))
             spans.append([a, b, draw(st.integers(0, len(PAL) - 1))])
+    return spans
+
+
+@st.composite
+def case(draw):
+    text = draw(unique_text())
+    spans = draw_spans(draw, len(text))
     width = draw(st.one_of(st.integers(2, 12), st.integers(2, 12), st.integers(2, 40), st.integers(2, 200)))
     return {
         "text": text,
@@ -82,11 +101,127 @@ def is_space(c):
     return c.isspace()
 
 
+def split_rows(flat):
+    rows = [[]]
+    for ch, sv in flat:
+        if ch == "\n":
+            rows.append([])
+        else:
+            rows[-1].append((ch, sv))
+    return rows
+
+
+def observe_wrap(t, con, width, justify, overflow, no_wrap, tab_size):
+    """Text.wrap, observed twice: every returned line rendered on its own, and the returned lines put together again with new lines between them (what Text.__rich_console__
+    does with them before anything reaches the screen; a line is a Text value and must behave as one when it is composed with others)."""
+    from rich.text import Text
+
+    lines = sut(t.wrap, con, width, justify=justify, overflow=overflow, tab_size=tab_size, no_wrap=no_wrap)
+    out_lines = [TV.char_styles(l) for l in lines]
+    joined = sut(Text("\n").join, lines)
+    return out_lines, split_rows(sut(TV.char_styles, joined))
+
+
+def observe_render(t, width, justify, overflow, no_wrap, tab_size):
+    """The text rendered by a console whose options give it `width` cells (Text.__rich_console__: wrap, then the lines joined)."""
+    t.justify, t.overflow, t.no_wrap = justify, overflow, no_wrap
+    t.end = ""
+    con2 = TV.console()
+    old_tab = con2.tab_size
+    con2.tab_size = tab_size
+    try:
+        segs = list(sut(lambda: list(con2.render(t, con2.options.update(width=width)))))
+    finally:
+        con2.tab_size = old_tab
+    return split_rows(TV.seg_chars(segs))
+
+
+def judge(ctx, text, want_style, out_lines, width, justify, overflow, effective_no_wrap, tab_size, what, joined=None):
+    """The four clauses on one wrap. text = the characters that were wrapped; want_style = {non-space character: expected style view}; out_lines = [[(character, style view)]].
+    joined = the same lines observed after being joined (style clause only). Returns None after a violation, else whether a word was broken."""
+    nonspace = [c for c in text if not is_space(c)]
+    # (2) every line fits
+    if overflow != "ignore":
+        for li, l in enumerate(out_lines):
+            w = sum(OC.cw(c) for c, _ in l)
+            if w > width:
+                ctx.violation("fits", "C02/fits/%s" % overflow, "line %d %r is %d cells wide, width %d (%r)" % (li, "".join(c for c, _ in l), w, width, what))
+                return None
+    # (1) bijection on non-space characters
+    got_ns = [c for l in out_lines for c, _ in l if not is_space(c) and c != "…"]
+    if overflow == "fold" and not effective_no_wrap:
+        if got_ns != nonspace:
+            dropped = [c for c in nonspace if c not in got_ns]
+            ctx.violation("bijection", "C02/bijection/%s" % ("dropped" if dropped else "reordered-or-duplicated"),
+                          "non-space characters out %r != in %r (text %r width %d justify %s)" % ("".join(got_ns), "".join(nonspace), text, width, justify))
+            return None
+    else:
+        # whatever is output must be a subsequence of the input, no duplicates
+        it = iter(nonspace)
+        for c in got_ns:
+            for d in it:
+                if d == c:
+                    break
+            else:
+                ctx.violation("bijection", "C02/bijection/invented", "output character %r out of order / not from the input %r" % (c, text))
+                return None
+    # (3) styles
+    for li, l in enumerate(out_lines):
+        for c, sv in l:
+            if c in want_style and sv != want_style[c]:
+                ctx.violation("style", "C02/style/%s" % ("wrapped" if len(out_lines) > 1 else "single-line"),
+                              "character %r (input offset %d) carries %r, expected %r; text %r width %d (%r)" % (c, text.index(c), sv, want_style[c], text, width, what))
+                return None
+    if joined is not None:
+        if [c for l in joined for c, _ in l] != [c for l in out_lines for c, _ in l]:
+            ctx.violation("bijection", "C02/bijection/joined", "the lines of wrap() joined with new lines hold %r, the lines themselves %r; text %r width %d" % (
+                ["".join(c for c, _ in l) for l in joined], ["".join(c for c, _ in l) for l in out_lines], text, width))
+            return None
+        for li, l in enumerate(joined):
+            for c, sv in l:
+                if c in want_style and sv != want_style[c]:
+                    ctx.violation("style", "C02/style/joined",
+                                  "after the lines of wrap() are joined with new lines, character %r (input offset %d, line %d) carries %r, expected %r; text %r width %d (%r)" % (
+                                      c, text.index(c), li, sv, want_style[c], text, width, what))
+                    return None
+    # (4) a word is broken only if it (plus indentation when first on its source line) is wider than the width
+    line_of = {}
+    for li, l in enumerate(out_lines):
+        for c, _ in l:
+            if c in want_style:
+                line_of.setdefault(c, li)
+    broken_word = False
+    if not effective_no_wrap:
+        for src in text.split("\n"):
+            exp = src.expandtabs(tab_size)
+            i = 0
+            first = True
+            while i < len(exp):
+                if is_space(exp[i]):
+                    i += 1
+                    continue
+                j = i
+                while j < len(exp) and not is_space(exp[j]):
+                    j += 1
+                word = exp[i:j]
+                ls = {line_of[c] for c in word if c in line_of}
+                if len(ls) > 1:
+                    broken_word = True
+                    need = OC.width(exp[:j]) if first else OC.width(word)
+                    if need <= width:
+                        ctx.violation("break", "C02/break/%s" % overflow, "word %r (needs %d cells%s) was split across lines at width %d; text %r" % (word, need, " with its indentation" if first else "", width, text))
+                        return None
+                first = False
+                i = j
+    return broken_word
+
+
 class Wrap(Part):
     name = "wrap"
-    rule = ("texts of <=12 tokens (words of 1-9 unique narrow/wide/zero-width characters, runs of spaces, newlines, tabs, U+3000) x 0-8 spans from a "
+    rule = ("texts of <=12 tokens (words of 1-9 unique narrow/wide/zero-width characters, runs of spaces, runs mixing spaces with U+3000, newlines, tabs) x 0-8 spans from a "
             "conflicting palette (overlapping, nested, duplicated, empty, remainder-equal) x base style x width 2..200 (biased to 2..12) x justify x "
-            "overflow x no_wrap x tab_size, through Text.wrap and through console rendering; non-trivial = >=2 output lines and (>=2 overlapping "
+            "overflow x no_wrap x tab_size, through Text.wrap (each line rendered on its own, and the style clause once more on the lines joined with new lines) and through console "
+            "rendering; non-trivial = >=2 output lines and (>=2 overlapping "
             "spans with different styles, or a word broken by folding, or a wide character ending a full line)")
     budget = {"quick": (16, 1500), "thorough": (16, 25000)}
 
@@ -126,26 +261,11 @@ class Wrap(Part):
                     ctx.violation("style", "C02/style/wrap-modified-its-input", "wrap() changed the text it was given: spans %r -> %r" % (spans_before, t.spans))
                     return
             ctx.cls("prelude")
+        joined = None
         if spec["via"] == "wrap":
-            lines = sut(t.wrap, con, width, justify=justify, overflow=overflow, tab_size=spec["tab_size"], no_wrap=no_wrap)
-            out_lines = [TV.char_styles(l) for l in lines]
+            out_lines, joined = observe_wrap(t, con, width, justify, overflow, no_wrap, spec["tab_size"])
         else:
-            t.justify, t.overflow, t.no_wrap = justify, overflow, no_wrap
-            t.end = ""
-            con2 = TV.console()
-            old_tab = con2.tab_size
-            con2.tab_size = spec["tab_size"]
-            try:
-                segs = list(sut(lambda: list(con2.render(t, con2.options.update(width=width)))))
-            finally:
-                con2.tab_size = old_tab
-            flat = TV.seg_chars(segs)
-            out_lines = [[]]
-            for ch, sv in flat:
-                if ch == "\n":
-                    out_lines.append([])
-                else:
-                    out_lines[-1].append((ch, sv))
+            out_lines = observe_render(t, width, justify, overflow, no_wrap, spec["tab_size"])
         ctx.cls("via-" + spec["via"], "overflow-" + overflow, "justify-" + justify)
         effective_no_wrap = no_wrap or overflow == "ignore"
         # expected per-offset style
@@ -154,67 +274,9 @@ class Wrap(Part):
             if not is_space(c):
                 cover = [PAL[s] for a, b, s in spec["spans"] if a <= i < b]
                 want_style[c] = GS.spec_view(GS.merge(spec["base"], *cover))
-        # (2) every line fits
-        if overflow != "ignore":
-            for li, l in enumerate(out_lines):
-                w = sum(OC.cw(c) for c, _ in l)
-                if w > width:
-                    ctx.violation("fits", "C02/fits/%s" % overflow, "line %d %r is %d cells wide, width %d (%r)" % (li, "".join(c for c, _ in l), w, width, spec))
-                    return
-        # (1) bijection on non-space characters
-        got_ns = [c for l in out_lines for c, _ in l if not is_space(c) and c != "…"]
-        if overflow == "fold" and not effective_no_wrap:
-            if got_ns != nonspace:
-                dropped = [c for c in nonspace if c not in got_ns]
-                ctx.violation("bijection", "C02/bijection/%s" % ("dropped" if dropped else "reordered-or-duplicated"),
-                              "non-space characters out %r != in %r (text %r width %d justify %s)" % ("".join(got_ns), "".join(nonspace), text, width, justify))
-                return
-        else:
-            # whatever is output must be a subsequence of the input, no duplicates
-            it = iter(nonspace)
-            for c in got_ns:
-                for d in it:
-                    if d == c:
-                        break
-                else:
-                    ctx.violation("bijection", "C02/bijection/invented", "output character %r out of order / not from the input %r" % (c, text))
-                    return
-        # (3) styles
-        for li, l in enumerate(out_lines):
-            for c, sv in l:
-                if c in want_style and sv != want_style[c]:
-                    ctx.violation("style", "C02/style/%s" % ("wrapped" if len(out_lines) > 1 else "single-line"),
-                                  "character %r (input offset %d) carries %r, expected %r; text %r spans %r width %d" % (c, text.index(c), sv, want_style[c], text, spec["spans"], width))
-                    return
-        # (4) a word is broken only if it (plus indentation when first on its source line) is wider than the width
-        line_of = {}
-        for li, l in enumerate(out_lines):
-            for c, _ in l:
-                if c in want_style:
-                    line_of.setdefault(c, li)
-        broken_word = False
-        if not effective_no_wrap:
-            for src in text.split("\n"):
-                exp = src.expandtabs(spec["tab_size"])
-                i = 0
-                first = True
-                while i < len(exp):
-                    if is_space(exp[i]):
-                        i += 1
-                        continue
-                    j = i
-                    while j < len(exp) and not is_space(exp[j]):
-                        j += 1
-                    word = exp[i:j]
-                    ls = {line_of[c] for c in word if c in line_of}
-                    if len(ls) > 1:
-                        broken_word = True
-                        need = OC.width(exp[:j]) if first else OC.width(word)
-                        if need <= width:
-                            ctx.violation("break", "C02/break/%s" % overflow, "word %r (needs %d cells%s) was split across lines at width %d; text %r" % (word, need, " with its indentation" if first else "", width, text))
-                            return
-                    first = False
-                    i = j
+        broken_word = judge(ctx, text, want_style, out_lines, width, justify, overflow, effective_no_wrap, spec["tab_size"], spec, joined=joined)
+        if broken_word is None:
+            return
         # non-trivial
         if len(out_lines) >= 2:
             overlapping = False
@@ -233,6 +295,193 @@ class Wrap(Part):
                 if overlapping:
                     ctx.cls("overlapping-spans")
 
+
+STYLE_IDX = st.one_of(st.none(), st.integers(0, len(PAL) - 1))
+
+
+@st.composite
+def edit_op(draw, idx):
+    """One call of the public editing API of Text, as a JSON-able list [name, arguments...]. Offsets and lengths are reduced modulo the length the text has when the call is made."""
+    k = draw(st.integers(0, 15))
+    piece = lambda: draw(unique_text(max_tokens=4, idx=idx))  # noqa: E731
+    if k == 0 or k == 1:
+        return ["append_tokens", [[piece(), draw(STYLE_IDX)] for _ in range(draw(st.integers(1, 3)))]]
+    if k == 2:
+        return ["append", piece(), draw(STYLE_IDX)]
+    if k == 3:
+        return ["append_text", piece(), draw(STYLE_IDX)]
+    if k == 4:
+        return ["right_crop", draw(st.integers(0, 12))]
+    if k == 5:
+        return ["remove_suffix", draw(st.integers(0, 8))]
+    if k == 6:
+        return ["set_length", draw(st.integers(-12, 6))]
+    if k == 7:
+        return ["expand_tabs", draw(st.one_of(st.none(), st.integers(1, 8)))]
+    if k == 8 or k == 9:
+        return ["truncate", draw(st.integers(1, 40)), draw(st.sampled_from([None, "crop", "fold", "ignore"])), draw(st.booleans())]
+    if k == 10:
+        return ["pad", draw(st.sampled_from(["left", "right", "both"])), draw(st.integers(0, 5))]
+    if k == 11:
+        return ["align", draw(st.sampled_from(["left", "center", "right"])), draw(st.integers(1, 40))]
+    if k == 12:
+        return draw(st.sampled_from([["rstrip"], ["rstrip_end", draw(st.integers(0, 30))], ["copy"]]))
+    if k == 13:
+        return ["stylize", draw(st.integers(0, len(PAL) - 1)), draw(st.integers(0, 60)), draw(st.integers(0, 30))]
+    if k == 14:
+        return ["plain_extend", piece()]
+    return ["plain_cut", draw(st.integers(0, 12))]
+
+
+@st.composite
+def history(draw):
+    idx = {"n": 0, "w": 0, "z": 0}
+    text = draw(unique_text(max_tokens=8, idx=idx))
+    spans = draw_spans(draw, len(text), most=5)
+    width = draw(st.one_of(st.integers(2, 12), st.integers(2, 12), st.integers(2, 40)))
+    rounds = []
+    for r in range(draw(st.integers(2, 4))):
+        ops = [draw(edit_op(idx)) for _ in range(draw(st.integers(1, 3)))] if r else []
+        rounds.append({
+            "ops": ops,
+            # None: the same width as the wrap before (a text that is displayed again after it was edited)
+            "width": None if r and draw(st.integers(0, 3)) else draw(st.one_of(st.integers(2, 12), st.integers(2, 40))) if r else width,
+            "justify": draw(st.sampled_from(["default", "default", "left", "center", "right", "full"])),
+            "overflow": draw(st.sampled_from(["fold", "fold", "fold", "fold", "crop", "ellipsis", "ignore"])),
+            "no_wrap": draw(st.sampled_from([False, False, False, False, False, True])),
+            "via": draw(st.sampled_from(["wrap", "wrap", "render"])),
+        })
+    return {"text": text, "spans": spans, "base": draw(st.one_of(st.none(), st.sampled_from(PAL))), "tab_size": draw(st.integers(1, 8)), "rounds": rounds}
+
+
+class Rewrap(Part):
+    name = "rewrap"
+    rule = ("one Text object with a history: built as in `wrap` (<=8 tokens, 0-5 spans), wrapped, then 1-3 further rounds of 1-3 calls of its public editing API (append_tokens, append, "
+            "append_text, right_crop, remove_suffix, set_length, expand_tabs, truncate with and without pad, pad_left/right/pad, align, rstrip, rstrip_end, copy, stylize, "
+            "assignment to .plain - added pieces use characters not used before) followed by another wrap, at the same width as before (3 of 4) or another one, under any justify / "
+            "overflow / no_wrap, through Text.wrap or console rendering; after every wrap the four clauses are checked against the characters the object holds at that moment "
+            "(its .plain read just before the wrap) and the style every one of them was given (constructor spans, style of the piece it arrived in, later stylize calls), and wrap must "
+            "leave the object unchanged; non-trivial = some wrap of >=2 lines was made at the width of an earlier wrap of the same object after the characters changed")
+    budget = {"quick": (16, 700), "thorough": (16, 12000)}
+
+    def strategy(self, tier):
+        return history()
+
+    @staticmethod
+    def apply(t, op, overlay, Text):
+        """Apply one editing call to the Text; keep `overlay` ({character: [palette index, ...]} in order of precedence) up to date. Returns the Text (copy replaces it)."""
+        name = op[0]
+        plain = t.plain
+        n = len(plain)
+        sty = lambda s: None if s is None else GS.build_style(PAL[s])  # noqa: E731
+
+        def added(piece, s):
+            for c in piece:
+                if not is_space(c):
+                    overlay[c] = [] if s is None else [s]
+
+        if name == "append_tokens":
+            for piece, s in op[1]:
+                added(piece, s)
+            sut(t.append_tokens, [(piece, sty(s)) for piece, s in op[1]])
+        elif name == "append":
+            added(op[1], op[2])
+            sut(t.append, op[1], sty(op[2]))
+        elif name == "append_text":
+            added(op[1], op[2])
+            sut(t.append_text, sut(Text, op[1], style=sty(op[2]) or ""))
+        elif name == "right_crop":
+            sut(t.right_crop, op[1])
+        elif name == "remove_suffix":
+            sut(t.remove_suffix, plain[n - min(op[1], n):] if op[1] else "")
+        elif name == "set_length":
+            sut(t.set_length, max(0, n + op[1]))
+        elif name == "expand_tabs":
+            sut(t.expand_tabs, op[1])
+        elif name == "truncate":
+            sut(t.truncate, op[1], overflow=op[2], pad=op[3])
+        elif name == "pad":
+            sut({"left": t.pad_left, "right": t.pad_right, "both": t.pad}[op[1]], op[2])
+        elif name == "align":
+            sut(t.align, op[1], op[2])
+        elif name == "rstrip":
+            sut(t.rstrip)
+        elif name == "rstrip_end":
+            sut(t.rstrip_end, op[1])
+        elif name == "copy":
+            t = sut(t.copy)
+        elif name == "stylize":
+            a = op[2] % (n + 1)
+            b = min(n, a + op[3])
+            for c in plain[a:b]:
+                if c in overlay:
+                    overlay[c].append(op[1])  # the span is added after all the others: it wins
+            sut(t.stylize, sty(op[1]), a, b)
+        elif name == "plain_extend":
+            # every span ends inside the text, so the characters assigned after the old end carry the base style only
+            added(op[1], None)
+            sut(setattr, t, "plain", plain + op[1])
+        elif name == "plain_cut":
+            sut(setattr, t, "plain", plain[: n - min(op[1], n)])
+        else:
+            raise ValueError(name)
+        return t
+
+    def check(self, spec, ctx):
+        from rich.text import Text, Span
+
+        text = spec["text"]
+        pieces = [text]
+        for rnd in spec["rounds"]:
+            for op in rnd["ops"]:
+                if op[0] == "append_tokens":
+                    pieces.extend(p for p, _ in op[1])
+                elif op[0] in ("append", "append_text", "plain_extend"):
+                    pieces.append(op[1])
+        every = [c for p in pieces for c in p if not is_space(c)]
+        if len(set(every)) != len(every) or "…" in every:
+            return
+        tab_size = spec["tab_size"]
+        spans = [Span(a, b, GS.build_style(PAL[s])) for a, b, s in spec["spans"]]
+        t = sut(Text, text, style=GS.build_style(spec["base"]) if spec["base"] else "", spans=list(spans), tab_size=tab_size)
+        overlay = {}
+        for i, c in enumerate(text):
+            if not is_space(c):
+                overlay[c] = [s for a, b, s in spec["spans"] if a <= i < b]
+        con = TV.console()
+        width = None
+        wrapped = []  # (width, characters) of the wraps made so far
+        for ri, rnd in enumerate(spec["rounds"]):
+            for op in rnd["ops"]:
+                t = self.apply(t, op, overlay, Text)
+                ctx.cls("op-" + op[0])
+            width = rnd["width"] or width
+            overflow, justify, no_wrap = rnd["overflow"], rnd["justify"], rnd["no_wrap"]
+            plain = t.plain
+            if any(not is_space(c) and c not in overlay for c in plain):
+                return  # an edit invented a character: not the subject here (C05)
+            want_style = {c: GS.spec_view(GS.merge(spec["base"], *[PAL[s] for s in overlay[c]])) for c in plain if not is_space(c)}
+            what = {"round": ri, "via": rnd["via"], "overflow": overflow, "justify": justify, "no_wrap": no_wrap, "tab_size": tab_size}
+            joined = None
+            if rnd["via"] == "wrap":
+                spans_before = list(t.spans)
+                out_lines, joined = observe_wrap(t, con, width, justify, overflow, no_wrap, tab_size)
+                if t.plain != plain or list(t.spans) != spans_before:
+                    ctx.violation("style", "C02/style/wrap-modified-its-input", "wrap() changed the text it was given: %r spans %r -> %r spans %r" % (plain, spans_before, t.plain, t.spans))
+                    return
+            else:
+                out_lines = observe_render(t, width, justify, overflow, no_wrap, tab_size)
+            broken = judge(ctx, plain, want_style, out_lines, width, justify, overflow, no_wrap or overflow == "ignore", tab_size, what, joined=joined)
+            if broken is None:
+                if ri:
+                    # its own signature: a wrap that fails after the object was wrapped and edited (a fresh Text with these characters is the subject of `wrap`)
+                    v = ctx.violations[-1]
+                    v.sig = v.sig + "/after-edits"
+                return
+            if len(out_lines) >= 2 and any(w == width and p != plain for w, p in wrapped):
+                ctx.nontrivial = True
+                ctx.cls("same-width-after-change")
+            wrapped.append((width, plain))
 
 
 class WordTemplate(Part):
@@ -358,4 +607,4 @@ class FitTemplate(Part):
         self.one(ctx, spec)
 
 
-PARTS = [Wrap(), WordTemplate(), FitTemplate()]
+PARTS = [Wrap(), Rewrap(), WordTemplate(), FitTemplate()]
